@@ -208,7 +208,7 @@ class Sink:
         self.outer.append((self.env.tick(), "C", None))
 
 
-def _drive(env: Env, horizon: int, subscribes, sinks, dispose_at=None) -> Optional[BaseException]:
+def _drive(env: Env, horizon: int, subscribes, sinks, dispose_at=None, outer_only=False) -> Optional[BaseException]:
     """subscribe (each function in turn) at tick 0; optionally dispose every subscription half a tick after
     `dispose_at`; cut the run half a tick after the horizon"""
     s = env.s
@@ -232,8 +232,12 @@ def _drive(env: Env, horizon: int, subscribes, sinks, dispose_at=None) -> Option
         s.stop()
 
     s.schedule_absolute(env.A(0), do_sub)
+    def dispose_outer(*_):       # only the subscription(s) to the sequence of windows / groups
+        for d in held:
+            d.dispose()
+
     if dispose_at is not None:
-        s.schedule_absolute(env.A(dispose_at + 0.5), dispose_all)
+        s.schedule_absolute(env.A(dispose_at + 0.5), dispose_outer if outer_only else dispose_all)
     s.schedule_absolute(env.A(horizon + 0.5), cut)
     try:
         s.start()
@@ -475,6 +479,17 @@ def describe_window(got) -> Dict[str, Any]:
 def _released(exp, got, scn) -> Optional[str]:
     """C03 flavour, dispose scenarios only: once the subscriber disposed the result and every window / group
     subscription (half a tick after instant dsp) the source subscription is closed - at that very moment"""
+    if exp.get("odisp"):
+        # outer-only dispose: the source is kept while a group the subscriber holds is live, and released at the
+        # instant the last of them ends (unsub = that instant; -1: not within the horizon / the source ended by itself)
+        d, want = scn["dsp"], exp["unsub"]
+        for (a, u) in got["src_subs"]:
+            if want >= 0:
+                if u is None or not (want <= u < want + 1):
+                    return f"leak:source unsubscribed at {u} expected at {want} (outer disposed at {d}+)"
+            elif u is not None and u < d + 1:
+                return f"early_release:source unsubscribed at {u} although groups still have subscribers (outer disposed at {d}+)"
+        return None
     if not exp.get("disp"):
         return None
     d = scn["dsp"]
@@ -652,7 +667,7 @@ def run_group(scn: Dict[str, Any], var: Dict[str, Any], horizon: int, nvals: int
     def subscriber(sink):
         return lambda: zs.subscribe(on_next=sink.on_inner, on_error=sink.on_error, on_completed=sink.on_completed,
                                     scheduler=env.s)
-    escaped = _drive(env, horizon, [subscriber(k) for k in sinks], sinks, dsp)
+    escaped = _drive(env, horizon, [subscriber(k) for k in sinks], sinks, dsp, scn.get("dmode") == "outer")
     return {"obs": [{"grps": k.inner, "outer": k.outer} for k in sinks], "escaped": escaped, "vals": vals, "errs": errs,
             "name": op, "dur_keys": dur_keys, "src_subs": _src_intervals(env, xs), "nsubs": len(sinks)}
 
@@ -834,7 +849,9 @@ def sample_group_scns(rng, op: str, c: Dict[str, Any], n: int) -> List[Dict[str,
                     par.update(durs=[DNEVER], dk="N", fr=0, dn=rng.choice(sorted(c["DCounts"])))
         dsp = rng.randint(0, c["MaxT"]) if c.get("Disposes") and rng.random() < 0.5 else inf
         rxg = rng.choice(sorted(c.get("RxG", {0}))) if op == "group_by_until" and par.get("dn", 0) == 0 else 0
-        out.append({"op": op, "par": par, "src": src, "term": term, "dsp": dsp,
+        dmode = "outer" if (dsp != inf and c.get("OuterOnly") and op in ("group_by", "group_by_until")
+                            and rng.random() < 0.5) else "all"
+        out.append({"op": op, "par": par, "src": src, "term": term, "dsp": dsp, "dmode": dmode,
                     "rx": {"g": rxg, "v": rng.randrange(nv) if rxg else 0}})
     return out
 
